@@ -194,6 +194,14 @@ def check_logs(w, rep, tier):
             want = cm.vertcat(cm.scalar(A.cells[2][1]), cm.scalar(A.cells[0][2]), cm.scalar(A.cells[1][0]))
             verdict(rep, "C03.form", "SO3Dcm.log = vee((R - R^T) theta/(2 sin theta)), theta = clamped acos((tr R - 1)/2)", L, want, (), w.method_where(D, "log")[:2],
                     "DCM log is not the clamped-acos / antisymmetric-part formula")
+            # dependence: the rotations by theta and by pi - theta about a COORDINATE axis have the same off-diagonal entries
+            # (+-sin theta and zeros) and differ on the diagonal only (cos theta vs -cos theta), so a log that never reads the diagonal returns the same vector
+            # for two different rotations and exp(log(X)) = X fails for one of them (the quadrant of the angle is lost)
+            diag = {dp.cells[i][0].single_atom() for i in (0, 4, 8)}
+            used = {a for p_ in L.flat() for a in all_atoms(p_) if a.kind == "sym"}
+            rep.check("C03.form", "SO3Dcm.log reads the diagonal of R (the trace carries cos theta; the antisymmetric part alone cannot tell theta from pi - theta)", bool(diag & used),
+                      "the DCM log does not depend on any diagonal entry of R: rotations by theta and by pi - theta about a coordinate axis (equal off-diagonal entries) get the same logarithm, so angles in (pi/2, pi] are folded onto [0, pi/2)",
+                      where=w.method_where(D, "log")[:2], fact={"inputs_read": sorted(repr(a) for a in used)})
             bad = unguarded_acos(L)
             rep.check("C03.guard", "SO3Dcm.log: acos argument is clamped on both sides (e > 1 -> 0, e < -1 -> pi)", not bad,
                       "acos is reachable without the two-sided guard: %s" % (short(Poly.atom(bad[0]), 100) if bad else ""), where=w.method_where(D, "log")[:2])
